@@ -56,6 +56,13 @@ XOnlyTweakAdd(p32, tweak32) ==
 (* TRUE iff XOnlyTweakAdd(p32, tweak32) = <<TRUE, parity, q32>>. *)
 XOnlyTweakAddCheck(q32, parity, p32, tweak32) == CHOOSE v \in BOOLEAN : TRUE
 
+(* secp256k1 points in serialized form.  Each returns <<ok, compressed 33-byte key>>, ok = FALSE (and <<>>) when a key does not parse
+   (33 bytes 02/03 + x on the curve; 65 bytes 04/06/07 + x, y on the curve, hybrid parity consistent), the scalar is 0 or >= n, or the
+   result is the point at infinity.  PubKeyCombine = P1 + P2, PubKeyTweakMul = t * P, PubKeyParse = P itself. *)
+PubKeyCombine(pub1, pub2) == CHOOSE t \in BOOLEAN \X Seq(Byte) : TRUE
+PubKeyTweakMul(pub, t32) == CHOOSE t \in BOOLEAN \X Seq(Byte) : TRUE
+PubKeyParse(pub) == CHOOSE t \in BOOLEAN \X Seq(Byte) : TRUE
+
 (* x32 is 32 bytes, x < p and x^3 + 7 is a quadratic residue mod p. *)
 IsOnCurveX(x32) == CHOOSE v \in BOOLEAN : TRUE
 
